@@ -291,16 +291,17 @@ theorem specBoard_holds {g : Game} {b : Board} {m : Move} (wf : Wf g b) (fits : 
 theorem right_bit (c x y k : Nat) : (c &&& (x &&& y)).testBit k = (c.testBit k && x.testBit k && y.testBit k) := by
   rw [Nat.testBit_and, Nat.testBit_and, Bool.and_assoc]
 
-/-- **`make_search_move` refines the rules' `apply`**: the position the engine's new position denotes is `Spec.apply`
-    of the position the old one denotes (the clocks away from their `u8`/`u16` limits) -/
-theorem apply_refines {g g' : Game} {b : Board} {m : Move} (wf : Wf g b) (fits : MoveFits b g.white m)
-    (flags : FlagsTrue b g.white g.ep m) (hmk : makeCore g m = some g') (hh : g.halfMoves < 255) (hfm : g.fullMoves < 65535) :
-    Spec.abs g' = Spec.apply (Spec.abs g) (smove m) := by
+/-- **`make_search_move` refines the rules' `apply`** (stated for the position it builds, whether or not the check test
+    then accepts it) -/
+theorem apply_refines_force {g : Game} {b : Board} {m : Move} (wf : Wf g b) (fits : MoveFits b g.white m)
+    (flags : FlagsTrue b g.white g.ep m) (hh : g.halfMoves < 255) (hfm : g.fullMoves < 65535) :
+    Spec.abs (makeForce g m) = Spec.apply (Spec.abs g) (smove m) := by
   have hWP : WP = 0 := rfl
   have hBP : BP = 6 := rfl
-  have wf' := makeCore_wf g g' m b wf fits hmk
-  obtain ⟨fw, fe, fc⟩ := makeCore_fields g g' m hmk
-  obtain ⟨ch, cf⟩ := makeCore_clocks g g' m hmk
+  have wf' := makeForce_wf g m b wf fits
+  obtain ⟨fw, fe, fc⟩ := makeCore_fields_force g m
+  obtain ⟨ch, cf⟩ := makeCore_clocks_force g m
+  generalize makeForce g m = g' at *
   have hp12 := ownP_lt fits.piece
   have hfl := fits.fromLt
   have htl := fits.toLt
@@ -378,5 +379,14 @@ theorem apply_refines {g g' : Game} {b : Board} {m : Move} (wf : Wf g b) (fits :
     cases g.white
     · simp only [Bool.false_eq_true, if_false]; omega
     · rfl
+
+/-- **`make_search_move` refines the rules' `apply`**: the position the engine's new position denotes is `Spec.apply`
+    of the position the old one denotes (the clocks away from their `u8`/`u16` limits) -/
+theorem apply_refines {g g' : Game} {b : Board} {m : Move} (wf : Wf g b) (fits : MoveFits b g.white m)
+    (flags : FlagsTrue b g.white g.ep m) (hmk : makeCore g m = some g') (hh : g.halfMoves < 255) (hfm : g.fullMoves < 65535) :
+    Spec.abs g' = Spec.apply (Spec.abs g) (smove m) := by
+  have := makeCore_some hmk
+  subst this
+  exact apply_refines_force wf fits flags hh hfm
 
 end Jence
